@@ -555,6 +555,48 @@ theorem same_config_test_is_map_equality {a b : Json} (ha : canonical a = true) 
     mapEq a b = true ↔ a = b :=
   ⟨mapEq_eq a b ha hb, fun h => h ▸ mapEq_refl a ha⟩
 
+/-! ### `caddy reload` (cmd/commandfuncs.go) -/
+
+/-- **`caddy reload` is the /load request**: whenever the command gets as far as sending
+    (file readable as JSON or adapted), the instance ends up exactly as after
+    `POST /load` with that body, `Content-Type: application/json` and — iff `--force` —
+    `Cache-Control: must-revalidate`; so everything proved about /load (unconditional
+    `POST /config`, replaces the document, unchanged ⇒ not reloaded unless forced) is what the
+    command does. -/
+theorem cli_reload_is_the_load_request (env : Env) (file body : Body) (a : CliAdapter) (force addr : Bool) (s : State)
+    (h : cliLoadConfig env file a = some body) (ha : cliAddressFound addr body = true) :
+    (cliReload env file a force addr s).1 = (serve env ⟨.post, loadPath, body, [], force, .json⟩ s).1 ∧
+    ((cliReload env file a force addr s).2 = .ok ↔ (serve env ⟨.post, loadPath, body, [], force, .json⟩ s).2 = .okWrite) := by
+  unfold cliReload
+  simp only [h, ha, Bool.not_true, Bool.false_eq_true, if_false]
+  generalize serve env ⟨.post, loadPath, body, [], force, .json⟩ s = x
+  obtain ⟨s', resp⟩ := x
+  cases resp <;> simp
+
+/-- **a `caddy reload` that does not exit 0 has changed nothing** -/
+theorem cli_reload_failure_changes_nothing {env : Env} {s : State} (hs : Reachable env s) (file : Body) (a : CliAdapter)
+    (force addr : Bool) (h : (cliReload env file a force addr s).2 ≠ .ok) : (cliReload env file a force addr s).1 = s := by
+  unfold cliReload at h ⊢
+  cases hl : cliLoadConfig env file a with
+  | none => rfl
+  | some body =>
+    simp only [hl] at h ⊢
+    by_cases haddr : cliAddressFound addr body = true
+    case neg => simp [haddr]
+    simp only [haddr, Bool.not_true, Bool.false_eq_true, if_false] at h ⊢
+    -- /load answers okWrite or a failure, nothing else
+    have hr : route loadPath = .load := by decide
+    have hresp : (serve env ⟨.post, loadPath, body, [], force, .json⟩ s).2 = .okWrite ∨
+        ∃ f, (serve env ⟨.post, loadPath, body, [], force, .json⟩ s).2 = .fail f := by
+      unfold serve
+      simp only [hr, handleLoad, adaptByContentType]
+      generalize (change env .post (slash :: cfgKey) body [] force s).2 = c
+      cases c <;> simp [loadResp, changeResp]
+    apply serve_rejected (reachable_inv hs)
+    rcases hresp with h1 | ⟨f, h1⟩
+    · rw [h1] at h; simp at h
+    · rw [h1]; rfl
+
 /-! ### an object tagged with @id is reachable under /id/ as that same object -/
 
 /-- the tagged object at position `segs` of the loaded document `j`, indexed under `t`, can
@@ -981,5 +1023,17 @@ example : Explained raceEnv raceLoaded [insertY, { patchX [] with path := pA0 }]
   Or.inl ⟨0, by decide, by decide⟩
 example : Explained raceEnv raceLoaded [insertY, { patchX [] with path := pA0 }] (0, patchX [], .okWrite) :=
   Or.inr ⟨0, 1, by decide, by decide, by decide⟩
+
+-- caddy reload: a JSON file replaces the document; the same file again is not reloaded unless --force
+def cliState : State := (cliReload loadEnv (.val exDoc) .none false false initState).1
+example : (cliReload loadEnv (.val exDoc) .none false false initState).2 = .ok ∧ cliState.loads = 1 := by decide
+example : (cliReload loadEnv (.val exDoc) .none false false cliState).1.loads = 1 := by decide
+example : (cliReload loadEnv (.val exDoc) .none true false cliState).1.loads = 2 := by decide
+example : (cliReload loadEnv .bad .none false false cliState) = (cliState, .failedBeforeSend) := by decide
+-- a file holding a JSON array: without --address the command cannot even look for admin.listen; with it, it is sent (and this world's apps accept anything)
+example : (cliReload loadEnv (.val (.arr [])) .none false false cliState) = (cliState, .failedBeforeSend) := by decide
+example : (cliReload loadEnv (.val (.arr [])) .none false true cliState).2 = .ok := by decide
+example : (cliReload loadEnv (.val (.num [49])) .registered false false cliState).2 = .ok := by decide
+example : (cliReload loadEnv (.val (.obj [(idKey, .bool true)])) .none false false cliState) = (cliState, .refused (.viaLoad .index)) := by decide
 
 end CaddyModel.C12
